@@ -17,12 +17,23 @@ AP = "melstf::state::applytx::"
 COIN = "elem(Iterator::enumerate($2.inputs)).1"
 IDX = "elem(Iterator::enumerate($2.inputs)).0"
 CDATA = "try(HashMap::get($3, %s))" % COIN
+ENUM_SRC, PLAIN_SRC = "Iterator::enumerate($2.inputs)", "$2.inputs"
+
+
+def _input_mode(b):
+    """how check_tx_validity walks the inputs: ('enumerate', COIN, IDX, CDATA) — position and coin id from enumerate() — or, when the loop is over the
+    inputs alone with the position kept in a separate counter, ('plain', COIN, None, CDATA): then the position is not read by these rules"""
+    srcs = [sig(l[3]) for l in q.loop_with_source(b, lambda s_: True)]
+    if ENUM_SRC not in srcs and PLAIN_SRC in srcs:
+        coin = "elem($2.inputs)"
+        return "plain", coin, None, "try(HashMap::get($3, %s))" % coin
+    return "enumerate", COIN, IDX, CDATA
 
 
 def r1_no_bypass(ctx):
     r = ctx.rule("R1", "every input passes validate_tx_scripts → Covenant::execute for its own environment (no path around it)")
     b = ctx.body(AP + "check_tx_validity", r)
-    loops = [l for l in q.loop_with_source(b, lambda s: True) if sig(l[3]) == "Iterator::enumerate($2.inputs)"]
+    loops = [l for l in q.loop_with_source(b, lambda s: True) if sig(l[3]) == (ENUM_SRC if _input_mode(b)[0] == "enumerate" else PLAIN_SRC)]
     r.anchor(loops, "input loop of check_tx_validity")
     h, blocks, latches, src = loops[0]
     val = [bi for bi, e in q.call_exprs(b, "validate_tx_scripts") if bi in blocks]
@@ -90,7 +101,7 @@ def r2_verdict(ctx):
     cb_ = ctx.body(AP + "check_tx_validity", r)
     sites_ = q.call_exprs(cb_, "validate_tx_scripts")
     pmap = {i + 1: q.novers(a) for i, a in enumerate(sites_[0][1][2])} if len(sites_) == 1 else {}
-    WANT_GET = "HashMap::get(Transaction::covenants_as_map($2), %s.coin_data.covhash)" % CDATA
+    WANT_GET = "HashMap::get(Transaction::covenants_as_map($2), %s.coin_data.covhash)" % _input_mode(ctx.prog.body(AP + "check_tx_validity"))[3]
     g = [(bi, e) for bi, e in q.call_exprs(v, "HashMap::get") if sig(q.subst_simplify(q.novers(e), pmap)) == WANT_GET]
     r.check(len(g) == 1, "script/lookup", "script looked up by the coin's covenant hash", "script lookups: %s" % [sig(q.subst_simplify(q.novers(e), pmap)) for bi, e in q.call_exprs(v, "HashMap::get")])
     for bi, e in g:
@@ -161,7 +172,15 @@ def r3_environment(ctx):
         if not ok:
             continue
         f = {k: q.subst_simplify(q.novers(x), pmap) for k, x in dict(dict(env[3])["0"][3]).items()}
-        q.check_table(r, "env", f, {"parent_coinid": COIN, "parent_cdh": CDATA, "last_header": LH, "spender_index": {"(%s as u8)" % IDX, IDX}}, where)
+        mode, coin_, idx_, cdata_ = _input_mode(b)
+        tbl = {"parent_coinid": coin_, "parent_cdh": cdata_, "last_header": LH}
+        if idx_ is not None:
+            tbl["spender_index"] = {"(%s as u8)" % idx_, idx_}
+        else:
+            r.undecided("env/spender_index", "the inputs are walked without enumerate(); spender_index = %s (a separately kept counter): that it is the input's position is not decided"
+                        % sig(f.get("spender_index", ("unknown", "")))[:100], where)
+            f = {k: x for k, x in f.items() if k != "spender_index"}
+        q.check_table(r, "env", f, tbl, where)
         si = f.get("spender_index")
         if si is not None and q.is_lossy_cast(si):
             r.violation("env/spender-index-lossy", "spender_index = %s: positions ≥ 256 wrap around (inputs are not bounded to 256)" % sig(si), where)
